@@ -3,6 +3,7 @@ import PartituraModel.Model.Kern
 import PartituraModel.Model.Mei
 import PartituraModel.Model.KernWrite
 import PartituraModel.Model.LoadDispatch
+import PartituraModel.Model.MeiWrite
 
 open Wire Model
 
@@ -146,6 +147,60 @@ def missing : List KernWrite.Fact → List KernWrite.Fact → List KernWrite.Fac
     | some pool' => missing fs pool'
     | none => f :: missing fs pool
 
+open Model.MeiWrite in
+def mnote : P MNote := do
+  let id ← str
+  let start ← nat
+  let n ← xnote
+  pure ⟨id, start, n⟩
+
+open Model.MeiWrite in
+def mtuplet : P MTuplet := do
+  let a ← str
+  let b ← str
+  let t1 ← nat
+  let t2 ← nat
+  let t3 ← nat
+  let same ← bool
+  let ratio ← opt (do let x ← nat; let y ← nat; pure (x, y))
+  pure ⟨a, b, t1, t2, t3, same, ratio⟩
+
+open Model.MeiWrite in
+def keysig : P KeySig := do
+  let t ← nat
+  let f ← int
+  let mode ← opt str
+  let pname ← str
+  pure ⟨t, f, mode, pname⟩
+
+open Model.MeiWrite in
+def mmeasure : P MMeasure := do
+  let number ← int
+  let start ← nat
+  let end_ ← nat
+  let notes ← list mnote
+  let tuplets ← list mtuplet
+  let keys ← list keysig
+  let meters ← list (do let t ← nat; let b ← nat; let u ← nat; pure (t, b, u))
+  pure ⟨number, start, end_, notes, tuplets, keys, meters⟩
+
+open Model.MeiWrite in
+def mpart : P MPart := do
+  let title ← str
+  let divs ← nat
+  let nstaves ← nat
+  let clefs ← list (do let st ← nat; let sg ← str; let ln ← nat; pure (st, sg, ln))
+  let key0 ← opt keysig
+  let meter0 ← opt (do let b ← nat; let u ← nat; pure (b, u))
+  let measures ← list mmeasure
+  pure ⟨title, divs, nstaves, clefs, key0, meter0, measures⟩
+
+def encStr (s : String) : String := encCell s.toList
+
+def fmtEv : Mei.Ev → String
+  | .op tag attrs => fmtTuple ["O", encStr tag, fmtList (fun (kv : String × String) => fmtTuple [encStr kv.1, encStr kv.2]) attrs]
+  | .cl => "C"
+
 def orErr (o : Option String) : String := o.getD "err"
 
 def handle (ts : List String) : String :=
@@ -185,6 +240,18 @@ def handle (ts : List String) : String :=
         -- the facts of the part that the denotation of the written document does not contain
         orErr <| (KernWrite.writeKern p).bind fun rows => (Kern.denote rows).map fun parts =>
           fmtList fmtFact (missing (KernWrite.facts p) ((parts.map fun q => q.notes.map KernWrite.factOfKernNote).flatten))
+      | _ => "bad-request"
+  | "wmei" :: what :: rest =>
+    match run mpart rest with
+    | none => "bad-request"
+    | some p =>
+      match what with
+      | "evs" => orErr ((MeiWrite.writeMei p).map (fmtList fmtEv))
+      | "exportable" => fmtBool (MeiWrite.Exportable p)
+      | "facts" => fmtList fmtFact (MeiWrite.facts p)
+      | "missing" =>
+        orErr <| (MeiWrite.writeMei p).bind fun evs => (Mei.denote evs).map fun parts =>
+          fmtList fmtFact (missing (MeiWrite.facts p) ((parts.map fun q => q.notes.map MeiWrite.factOfMeiNote).flatten))
       | _ => "bad-request"
   | "disp" :: rest =>
     orErr <| (run str rest).bind fun path => (LoadDispatch.dispatch path.toList).map (·.name)
